@@ -269,7 +269,8 @@ GroupSections == {"ghdr", "vertices", "indices", "normals", "tex_coords", "verte
                   "bsp_nodes", "liquid", "doodad_refs", "gmaterials"}
 \* the same content seen through the second public parser (parse_wmo); only what both object
 \* models can express
-RootApiSections  == {"textures", "group_names", "counts"}
+RootApiSections  == {"textures", "group_names", "counts", "materials", "portals", "portal_refs", "lights",
+                     "doodad_sets", "doodad_geom", "group_geom"}
 GroupApiSections == {"vertices", "indices", "normals", "tex_coords", "vertex_colors", "doodad_refs"}
 
 \* Conversion a -> b keeps every section representable in both versions.  Conservative
